@@ -142,3 +142,123 @@ def catch(kinds=(BaseException,)):
         if isinstance(exc, (Violation, HarnessError)):
             raise
         box["exc"] = exc
+
+
+# -------------------------------------------------------------------------
+# curve sources and fit configurations (JSON-able records)
+
+DEFAULT_PRE = ["compute_tip_position", "correct_force_offset", "correct_tip_offset"]
+
+
+def st_source(st, synth_kwargs=None, recorded=None, p_recorded=0.2):
+    """strategy for a curve source record: synthetic (parametric) or recorded (file, enum)"""
+    from . import recorded as rec
+    pool = list(recorded if recorded is not None else rec.SMALL)
+    kw = dict(n_range=(60, 700), noise=st.sampled_from([0.0, 1e-3, 1e-2, 3e-2]), wide=False,
+              tilt=True)
+    kw.update(synth_kwargs or {})
+    syn = synth.st_curve(st, **kw).map(lambda c: {"kind": "synth", "curve": c})
+    if not pool or p_recorded <= 0:
+        return syn
+    recs = st.sampled_from(pool).map(lambda ne: {"kind": "recorded", "name": ne[0], "enum": ne[1]})
+    n_syn = max(1, int(round((1 - p_recorded) / p_recorded)))
+    return st.one_of(*([syn] * n_syn + [recs]))
+
+
+def build_source(src, preprocess=True):
+    """fresh curve for a source record, preprocessed so that 'tip position' exists"""
+    from . import recorded as rec
+    if src["kind"] == "synth":
+        idnt = synth.build(src["curve"])
+        if preprocess:
+            pre = src.get("pre")
+            if pre is None:
+                pre = [] if src["curve"].get("with_tip") else ["compute_tip_position"]
+            if pre:
+                idnt.apply_preprocessing(list(pre), dict(src.get("pre_options", {})))
+    else:
+        idnt = rec.fresh(src["name"], src["enum"])
+        if preprocess:
+            idnt.apply_preprocessing(list(src.get("pre", DEFAULT_PRE)), dict(src.get("pre_options", {})))
+    return idnt
+
+
+def resolve_range(idnt, cfg):
+    """interval in x-axis units from the fractional spec of a fit configuration"""
+    rf = cfg.get("range_frac")
+    if rf is None:
+        return [0, 0]
+    x = idnt["tip position"]
+    lo, hi = float(np.min(x)), float(np.max(x))
+    span = hi - lo
+    vals = []
+    for f in rf:
+        if f in ("inf", "-inf"):
+            vals.append(float(f))
+        elif cfg.get("range_type") == "relative cp":
+            vals.append(f * span)
+        else:
+            vals.append(lo + f * span)
+    if cfg.get("range_on_samples") and cfg.get("range_type") != "relative cp":
+        # snap the bounds onto sample abscissae of the fitted segment
+        seg = idnt["segment"] == cfg.get("segment", 0)
+        xs = np.sort(x[seg])
+        if xs.size:
+            vals = [float(xs[np.argmin(np.abs(xs - v))]) if np.isfinite(v) else v for v in vals]
+    return vals
+
+
+def st_fit_cfg(st, models=None, methods=("leastsq", "nelder"), gcf=True, plateau=False,
+               tiny_ranges=False):
+    """strategy for a fit configuration record"""
+    models = list(models or refmodels.MODELS)
+
+    @st.composite
+    def _cfg(draw):
+        rt = draw(st.sampled_from(["absolute", "absolute", "relative cp"]))
+        kind = draw(st.sampled_from(["full", "interval", "interval", "inverted", "onesided", "samples"]
+                                    + (["tiny"] if tiny_ranges else [])))
+        a, b = sorted([draw(st.floats(0.0, 1.0)), draw(st.floats(0.0, 1.0))])
+        if rt == "relative cp":
+            a, b = -draw(st.floats(0.02, 1.0)), draw(st.floats(0.02, 1.0))
+        rf = [a, b]
+        if kind == "full":
+            rf = None
+        elif kind == "inverted":
+            rf = [b, a]
+        elif kind == "onesided":
+            rf = draw(st.sampled_from([["-inf", b], [a, "inf"]]))
+        elif kind == "tiny":
+            rf = [a, a + draw(st.floats(0.0, 0.01))]
+        cfg = {"model_key": draw(st.sampled_from(models)),
+               "segment": draw(st.sampled_from([0, 0, 1, "approach", "retract"])),
+               "range_type": rt, "range_frac": rf, "range_on_samples": kind == "samples",
+               "weight_cp": draw(st.sampled_from([0, False, 1e-8, 1e-7, 5e-7, 2e-6, 5e-6])),
+               "gcf_k": draw(st.sampled_from([1.0, 1.0, 0.5, 2.0]) if gcf else st.just(1.0)),
+               "method": draw(st.sampled_from(list(methods))),
+               "optimal_fit_edelta": False}
+        if gcf and draw(st.booleans()) and cfg["gcf_k"] != 1.0:
+            cfg["gcf_k"] = draw(st.floats(0.05, 2.0))
+        if plateau and draw(st.integers(0, 5)) == 0:
+            cfg.update(optimal_fit_edelta=True, range_type="absolute", segment=0,
+                       optimal_fit_num_samples=draw(st.integers(7, 16)))
+        return cfg
+
+    return _cfg()
+
+
+def fit_kwargs(idnt, cfg, params_initial=None):
+    kw = {"model_key": cfg["model_key"], "segment": cfg["segment"], "range_type": cfg["range_type"],
+          "range_x": resolve_range(idnt, cfg), "weight_cp": cfg["weight_cp"], "gcf_k": cfg["gcf_k"],
+          "method": cfg["method"], "optimal_fit_edelta": cfg.get("optimal_fit_edelta", False)}
+    if cfg.get("optimal_fit_edelta"):
+        kw["optimal_fit_num_samples"] = cfg["optimal_fit_num_samples"]
+    if cfg.get("method_kws") is not None:
+        kw["method_kws"] = dict(cfg["method_kws"])
+    if params_initial is not None:
+        kw["params_initial"] = params_initial
+    return kw
+
+
+def seg_id(segment):
+    return {"approach": 0, "retract": 1}.get(segment, segment)
